@@ -10,7 +10,7 @@ SEEDS="$*"; [ -z "$SEEDS" ] && SEEDS=$(ls seeded)
 for S in $SEEDS; do
   P=${S%%-*}
   case $S in C20-2) P=C13;; C20-3) P=C04;; esac
-  git -C /repo apply seeded/$S/patch.diff 2>/dev/null || { echo "$S patch-does-not-apply" >> $OUT; continue; }
+  git -C /repo apply /verif/seeded/$S/patch.diff 2>/dev/null || { echo "$S patch-does-not-apply" >> $OUT; continue; }
   R=$(python3 -m vx check $P | tail -1 | sed 's/.*exit=//')
   V=$(python3 - <<PY
 import json
